@@ -40,6 +40,12 @@ import (
 
 func init() { scenarios["C06"] = c06 }
 
+// the ClientInfo the server returned for the previous direct (non-dispatch) handshake, and the UID that client sent
+var (
+	c06prevCI  server.ClientInfo
+	c06prevUID []byte
+)
+
 // ---- buffered in-memory duplex connection (writes never block; deadlines honoured) ----
 
 type halfPipe struct {
@@ -313,6 +319,12 @@ func (e *c06env) run(k c06case, idx int) {
 		return
 	}
 	// ---- the property ----
+	// what the server recovered from an EARLIER handshake must still be what that client sent, now that a later first packet
+	// has been decrypted (round-6 seed C06-8: the plaintext came from a recycled buffer and ClientInfo.UID aliased it)
+	if c06prevCI.UID != nil && !bytes.Equal(c06prevCI.UID, c06prevUID) {
+		fail("uid-changed-after-a-later-handshake", map[string]any{"earlier_client_uid": hx(c06prevUID), "server_holds_now": hx(c06prevCI.UID), "this_client_uid": hx(k.uid)})
+	}
+	c06prevCI, c06prevUID = ci, append([]byte(nil), k.uid...)
 	if !bytes.Equal(ci.UID, k.uid) {
 		fail("uid-mismatch", map[string]any{"server": hx(ci.UID)})
 	}
